@@ -10,8 +10,19 @@ package c05
 // emit more packages under the same request id.  (Error packages - COMMAND_ERROR - may
 // precede it; they are a different kind and are not final here.)  Everything that
 // streams or is emitted asynchronously (output, beacon output, download chunks,
-// proc-create, spawn-dll, job-died, dotnet info, inline-execute, transfer-remove's
+// proc-create, spawn-dll, job-died, dotnet info, inline-execute output, transfer-remove's
 // second package, kill-date, demon-info, package-dropped, error) is Final == false.
+//
+// Inline execute (CoffeeLdr.c) has four sub-types that END the task: CoffeeLdr transmits
+// exactly one of RAN_OK / COULD_NO_RUN as its very last package (after the object file
+// returned and after the clean-up), so both are final by the rule above.  EXCEPTION
+// (VehDebugger) and SYMBOL_NOT_FOUND (CoffeeProcessSymbol / CoffeeExecuteFunction) are
+// followed by that closing package on the Demon side, but the reference teamserver ends
+// the request on whichever of the four it processes first (TaskDispatch
+// COMMAND_INLINEEXECUTE calls RequestCompleted in each of the four branches): that
+// callback is the task's final callback on the reference tree, the Demon's closing
+// package then carries a completed id and is dropped.  So all four are Final here; the
+// model is "the first of the four that is processed ends the task".
 
 import (
 	"Havoc/pkg/agent"
@@ -151,7 +162,8 @@ var kinds = []kind{
 	{Name: "bof-output", Cmd: agent.COMMAND_INLINEEXECUTE, Build: one(func(e *demonref.Enc, text string, _ uint32) {
 		e.Int32(agent.CALLBACK_OUTPUT).String("bofout:" + text)
 	})},
-	{Name: "bof-ran-ok", Cmd: agent.COMMAND_INLINEEXECUTE, Build: one(func(e *demonref.Enc, _ string, _ uint32) {
+	// CoffeeLdr: "if ( Success ) RAN_OK else COULD_NO_RUN", last package of the loader
+	{Name: "bof-ran-ok", Cmd: agent.COMMAND_INLINEEXECUTE, Final: true, Build: one(func(e *demonref.Enc, _ string, _ uint32) {
 		e.Int32(agent.COMMAND_INLINEEXECUTE_RAN_OK)
 	})},
 	// Dotnet.c: info packages
@@ -280,6 +292,31 @@ var kinds = []kind{
 		e.Int32(agent.DEMON_INFO_MEM_ALLOC).Ptr(0x20000000 + uint64(n)).Int32(4096).Int32(0x40)
 	})},
 	{Name: "package-dropped", Cmd: agent.COMMAND_PACKAGE_DROPPED, Build: one(func(e *demonref.Enc, _ string, n uint32) { e.Int32(0x2000000 + n).Int32(0x1e00000) })},
+	// ---- the other ways an inline-execute task ends or reports (CoffeeLdr.c)
+	// CoffeeLdr END: label, Success == FALSE
+	{Name: "bof-could-not-run", Cmd: agent.COMMAND_INLINEEXECUTE, Final: true, Build: one(func(e *demonref.Enc, _ string, _ uint32) {
+		e.Int32(agent.COMMAND_INLINEEXECUTE_COULD_NO_RUN)
+	})},
+	// VehDebugger: AddInt32(EXCEPTION) AddInt32(ExceptionCode) AddInt64(ExceptionAddress)
+	{Name: "bof-exception", Cmd: agent.COMMAND_INLINEEXECUTE, Final: true, Build: one(func(e *demonref.Enc, _ string, n uint32) {
+		e.Int32(agent.COMMAND_INLINEEXECUTE_EXCEPTION).Int32(0xC0000005 + n%3).Int64(0x7ff700000000 + uint64(n))
+	})},
+	// CoffeeProcessSymbol SymbolNotFound: / CoffeeExecuteFunction: AddInt32(SYMBOL_NOT_FOUND) AddString(SymbolName)
+	{Name: "bof-symbol-not-found", Cmd: agent.COMMAND_INLINEEXECUTE, Final: true, Build: one(func(e *demonref.Enc, text string, _ uint32) {
+		e.Int32(agent.COMMAND_INLINEEXECUTE_SYMBOL_NOT_FOUND).String("__imp_KERNEL32$" + text)
+	})},
+	// BeaconPrintf( CALLBACK_ERROR ) routed as inline-execute output: streams
+	{Name: "bof-error", Cmd: agent.COMMAND_INLINEEXECUTE, Build: one(func(e *demonref.Enc, text string, _ uint32) {
+		e.Int32(agent.CALLBACK_ERROR).String("boferr:" + text)
+	})},
+	// CommandAssemblyInlineExecute: DotnetExecute failed -> ONE package DOTNET_INFO_FAILED, DotnetClose, return
+	{Name: "dotnet-failed", Cmd: agent.COMMAND_ASSEMBLY_INLINE_EXECUTE, Final: true, Build: one(func(e *demonref.Enc, _ string, _ uint32) {
+		e.Int32(agent.DOTNET_INFO_FAILED)
+	})},
+	// Dotnet.c DotnetExecute: AddInt32(ENTRYPOINT_EXECUTED) AddInt32(ThreadId); the output follows later
+	{Name: "dotnet-entrypoint", Cmd: agent.COMMAND_ASSEMBLY_INLINE_EXECUTE, Build: one(func(e *demonref.Enc, _ string, n uint32) {
+		e.Int32(agent.DOTNET_INFO_ENTRYPOINT).Int32(n % 9000)
+	})},
 	// relay kinds: accepted without a task by the statement
 	{Name: "socket-rportfwd-list", Cmd: agent.COMMAND_SOCKET, Relay: true, Build: one(func(e *demonref.Enc, _ string, n uint32) {
 		e.Int32(agent.SOCKET_COMMAND_RPORTFWD_LIST).Int32(n).Int32(0x0100007f).Int32(8080).Int32(0x0100007f).Int32(80)
